@@ -303,6 +303,9 @@ fn run_case(env: &mut Env, cause: &str, n: usize, collapse_pre: bool, choose: &m
     let mut steps = 0usize;
     // polls granted to each waiter after the exiter finished
     let mut post_polls = vec![0usize; n];
+    // a registered waiter that was polled and nothing has happened since (no exiter step, no
+    // abandonment): polling it again cannot change anything, so it is not offered as a choice
+    let mut stale = vec![false; n];
     macro_rules! step_e {
         () => {{
             let p = at(&eph);
@@ -316,6 +319,7 @@ fn run_case(env: &mut Env, cause: &str, n: usize, collapse_pre: bool, choose: &m
             env.st.bump(&format!("pt_{p}"));
             sig.push('e');
             steps += 1;
+            stale.iter_mut().for_each(|x| *x = false);
         }};
     }
     loop {
@@ -325,7 +329,7 @@ fn run_case(env: &mut Env, cause: &str, n: usize, collapse_pre: bool, choose: &m
         let ws: Vec<(usize, &'static str)> = wph
             .iter()
             .enumerate()
-            .filter(|(i, p)| matches!(p, ThreadPhase::AtPoint(_)) && (ex.is_some() || post_polls[*i] < POST_POLLS))
+            .filter(|(i, p)| matches!(p, ThreadPhase::AtPoint(_)) && if ex.is_some() { !stale[*i] } else { post_polls[*i] < POST_POLLS })
             .map(|(i, p)| (i, at(p)))
             .collect();
         if ex.is_none() && ws.is_empty() {
@@ -349,6 +353,7 @@ fn run_case(env: &mut Env, cause: &str, n: usize, collapse_pre: bool, choose: &m
                 }
                 wctls[i].grant();
                 wph[i] = wait_model_point(&wctls[i]);
+                stale[i] = at(&wph[i]) == "wait.poll";
                 let f = fields(env);
                 let ret = if at(&wph[i]) == "done" { " ret" } else { "" };
                 env.log.rec(format!("step w{i} {p}"), format!("{f} at={}{ret}", at(&wph[i])));
@@ -367,6 +372,7 @@ fn run_case(env: &mut Env, cause: &str, n: usize, collapse_pre: bool, choose: &m
                 let f = fields(env);
                 env.log.rec(format!("abandon {i}"), format!("{f} at={}", at(&wph[i])));
                 env.st.bump("abandon");
+                stale.iter_mut().for_each(|x| *x = false);
                 sig.push('x');
                 sig.push_str(&i.to_string());
                 steps += 1;
